@@ -24,26 +24,35 @@ impl Model {
         Model { child, stdin, stdout, requests: 0 }
     }
     /// Send a batch of request lines; returns one response per request.
+    /// Requests go out in chunks small enough to fit the pipe, each followed by a `sync`
+    /// barrier, so that neither side can block on a full pipe while the other is writing.
     pub fn batch(&mut self, lines: &[String]) -> Vec<String> {
-        let mut buf = String::new();
-        for l in lines {
-            buf.push_str(l);
-            buf.push('\n');
-        }
-        buf.push_str("sync\n");
-        self.stdin.write_all(buf.as_bytes()).expect("model driver died (write)");
-        self.stdin.flush().unwrap();
         let mut out = Vec::with_capacity(lines.len());
-        for _ in 0..lines.len() + 1 {
-            let mut l = String::new();
-            let n = self.stdout.read_line(&mut l).expect("model driver died (read)");
-            if n == 0 {
-                eprintln!("model driver closed its output");
-                std::process::exit(2);
+        let mut i = 0;
+        while i < lines.len() {
+            let mut buf = String::new();
+            let mut n = 0;
+            while i < lines.len() && (n == 0 || buf.len() + lines[i].len() < 40_000) {
+                buf.push_str(&lines[i]);
+                buf.push('\n');
+                i += 1;
+                n += 1;
             }
-            out.push(l.trim_end().to_string());
+            buf.push_str("sync\n");
+            self.stdin.write_all(buf.as_bytes()).expect("model driver died (write)");
+            self.stdin.flush().unwrap();
+            for k in 0..n + 1 {
+                let mut l = String::new();
+                let got = self.stdout.read_line(&mut l).expect("model driver died (read)");
+                if got == 0 {
+                    eprintln!("model driver closed its output");
+                    std::process::exit(2);
+                }
+                if k < n {
+                    out.push(l.trim_end().to_string());
+                }
+            }
         }
-        out.pop();
         self.requests += lines.len() as u64;
         out
     }
